@@ -23,6 +23,10 @@ def run(facts, tier):
     obs += o
     rules.append({"rule": "a2 stream final check", "instances": len(o), "min": 31, "functions": armed2,
                   "text": "every stream reader tests the stream state after its last read on every returning path"})
+    o = validators.checker_obligations(facts)
+    obs += o
+    rules.append({"rule": "checker functions", "instances": len(o), "min": 40,
+                  "text": "functions that are plain lists of throwing guards (check_*, validate_*, guarded constructors) reject exactly the reviewed ranges: operators and constants of every guard (spec/checkers.json)"})
     o = validators.obligations(facts)
     obs += o
     rules.append({"rule": "a3 validators", "instances": len(o), "min": 283,
